@@ -1,6 +1,7 @@
 #!/usr/bin/env bash
 # Confirms a seeded change in a scratch worktree of /repo (never in /repo itself):
 #   tools/confirm_seed.sh <seed-dir> <crate> <demo-destination-in-repo> [extra setup diff]
+#   env CONFIRM_FEATURES: cargo features for the demo and the suite (e.g. da-compression,test-helpers,random)
 # Expects <seed-dir>/patch.diff and <seed-dir>/demo.rs. Prints DEMO-WITHOUT, DEMO-WITH, SUITE lines.
 set -u
 SEED="$(readlink -f "$1")"; CRATE="$2"; DEST="$3"; SETUP="${4:-}"
@@ -13,15 +14,16 @@ cd "$W"
 mkdir -p "$(dirname "$DEST")"; cp "$SEED/demo.rs" "$DEST"
 [ -n "$SETUP" ] && git apply "$SEED/$SETUP"
 TESTNAME="$(basename "$DEST" .rs)"
+FEAT=(); [ -n "${CONFIRM_FEATURES:-}" ] && FEAT=(--features "$CONFIRM_FEATURES")
 run_demo() {
   if [[ "$DEST" == */tests/*.rs && "$DEST" != */src/* ]]; then
-    cargo test -p "$CRATE" --offline --test "$TESTNAME" 2>&1 | grep -E "^test result|panicked|error(\[|:)" | head -5
+    cargo test -p "$CRATE" "${FEAT[@]}" --offline --test "$TESTNAME" 2>&1 | grep -E "^test result|panicked|error(\[|:)" | head -5
   else
-    cargo test -p "$CRATE" --offline --lib -- "$TESTNAME" 2>&1 | grep -E "^test result|panicked|error(\[|:)" | head -5
+    cargo test -p "$CRATE" "${FEAT[@]}" --offline --lib -- "$TESTNAME" 2>&1 | grep -E "^test result|panicked|error(\[|:)" | head -5
   fi
 }
 echo "DEMO-WITHOUT: $(run_demo | tr '\n' ' ')"
 git apply "$SEED/patch.diff" || { echo "PATCH-DOES-NOT-APPLY"; exit 2; }
 echo "DEMO-WITH: $(run_demo | tr '\n' ' ')"
 rm -f "$DEST"; [ -n "$SETUP" ] && git apply -R "$SEED/$SETUP"
-echo "SUITE($CRATE): $(cargo test -p "$CRATE" --offline 2>&1 | grep -E "^test result|FAILED|panicked" | sort | uniq -c | tr '\n' ' ')"
+echo "SUITE($CRATE): $(cargo test -p "$CRATE" "${FEAT[@]}" --offline 2>&1 | grep -E "^test result|FAILED|panicked" | sort | uniq -c | tr '\n' ' ')"
